@@ -258,7 +258,15 @@ class _ReusablePoolExecutor(ProcessPoolExecutor):
             ):
                 time.sleep(1e-3)
 
-            self._adjust_process_count()
+            try:
+                self._adjust_process_count()
+            except OSError:
+                # A worker died meanwhile and the executor manager thread is
+                # closing the queues of the (now broken) executor under the
+                # feet of the process being spawned: the caller will be told
+                # that the executor is broken when it submits to it.
+                if self._flags.broken is None:
+                    raise
             processes = list(self._processes.values())
             _verif_point("executor.resize.after_adjust", executor=self)
             while (
